@@ -417,7 +417,7 @@ def build(tier):
     import factory
     targets += factory.targets(tier)
     return {
-        'targets': targets, 'vcs': __import__('fields').vcs(),
+        'targets': targets, 'vcs': __import__('fields').vcs() + clones.vcs(tier),
         'decided': [
             '::check<int64|double>: returns min <= v for LE_t and min < v for LT_t (which variant index is LE_t is read from clang\'s type)',
             '::update(range_t / pair_range_t) for EVERY instantiation present in src/parameter.cpp (read from clang on each run, with the '
